@@ -43,7 +43,7 @@ LEAN = {"module": "Pygom.Props.C01",
                      "Pygom.C01.ode_eq_vmat_mul_rates", "Pygom.C01.reactant_entry", "Pygom.C01.derived_subst",
                      "Pygom.C01.stateIndex_error_iff", "Pygom.C01.assemble_spec", "Pygom.C01.resolveEvents_wf"]}
 BUDGET = {"quick": {"models": 160, "wide": 70, "cython": 3, "malformed": 24},
-          "thorough": {"models": 3000, "wide": 1200, "cython": 40, "malformed": 300}}
+          "thorough": {"models": 3000, "wide": 900, "cython": 40, "malformed": 300}}
 RULE = ("random model definitions (1-5 states incl. range-style names, 1-5 params, 0-5 events of 1-3 B/D/T transitions, numeric "
         "and symbolic magnitudes, linear/mass-action/saturating/exponential/time-periodic rates, explicit ODE terms, derived "
         "parameters, every API route) + a malformed stream; per model 4 points (one integer valued with zero states) in varied "
@@ -60,7 +60,9 @@ RULE = ("random model definitions (1-5 states incl. range-style names, 1-5 param
         "relatively PER ENTRY against a cancellation-aware bound (no absolute floor)")
 ASSUMPTIONS = ["sympy parser/subs and lambdify/autowrap are translation-validated per case, not proved",
                "identity of expressions is decided by exact evaluation at 3 random rational points (50 digits)"]
-TRUSTED = ["harness generator, AST printer (exprs.to_str) and interpreter (exprs.ev)", "Lean driver JSON codec"]
+TRUSTED = ["harness generator, AST printer (exprs.to_str) and interpreter (exprs.ev)", "Lean driver JSON codec",
+           "natural-precedence printer exprs.user_str (checked on every case it is used for against Python's own parser, exprs.python_value)",
+           "exprs.ev_bound (cancellation-aware scale of the direct oracle's tolerance)"]
 
 
 def malform(rng, spec, meta):
